@@ -1120,6 +1120,13 @@ def run(ctx):
     from . import builders
     r13 = ctx.rule("C12-R13", "the option setters of RenumberConfig store their parameter into the field of their own name and return the configuration: all eight combinations of trim / structural_hash / const_fold are reachable and mean what they say", floor=6)
     builders.run(ctx, r13, [AIG + "RenumberConfig"], 3)
+    # R14: `max_var_index` and the header counts are what a file (or a caller) *declares*; the graph may be tiny.  A table
+    # sized by them makes renumbering fail (capacity overflow, allocation failure) on a well-formed graph: the allocation
+    # rule of C05-R5 on the renumbering code
+    from . import c05, taint as T
+    r14 = ctx.rule("C12-R14", "no table of the renumbering code is sized by a declared number (max_var_index, header counts): a well-formed graph with a large declared index is renumbered like any other (shared with C05-R5)", floor=1)
+    c05.run_r5(ctx, r14, T.Taint(ctx.facts), scope=lambda f: f.crate == "flussab_aiger" and (norm(f.id).startswith(AIG + "Renumber") or norm(f.id).startswith(AIG + "Aig::lit_defs") or norm(f.id).startswith(AIG + "LitMap")))
+    # (the conversion OrderedAig -> Aig is not in this scope: it spells out `input_count` inputs, which is its output)
     r6 = ctx.rule("C12-R6", "every constant fold is an identity of AND (each decision path checked over the six representative codes)", floor=5)
     run_r6(ctx, r6)
     ctx.assume("Boolean equivalence of the renumbered circuit as a whole, hash-consing and completeness of the cycle detection are value-level and NOT decided (the const-fold case analysis is decided by C12-R6)")
